@@ -201,7 +201,83 @@ def c20_jobs(tier):
     return jobs
 
 
+def c02_jobs(tier):
+    q = tier == "quick"
+    jobs = []
+    cut_dd = [c + "|" + MOD + ".decryptMsg" for c in ALL_CUTS]
+    suites = [0, 4, 8] if q else range(9)
+    # O2-O4 on arbitrary datagrams.  family 1: first payload spans the datagram; family 0: arbitrary chains
+    nA = 28 + 4 + 16 + 32 + 16 if q else 28 + 4 + 16 + 64 + 16
+    nB = 28 + 8 if q else 28 + 10
+    for s in suites:
+        for role in (0, 1):
+            for hm in (0, 1):
+                for n in range(0, nA + 1):
+                    if q and n > 40 and (n + s + role + hm) % 3 != 0:
+                        continue
+                    jobs.append(job(ROOT, "HUnprotectArbitrary", [s, role, hm, n, 1], cut=cut_dd))
+                for n in range(0, nB + 1):
+                    jobs.append(job(ROOT, "HUnprotectArbitrary", [s, role, hm, n, 0]))
+    # genuine messages, tampered / truncated / extended / reflected / presented under other keys
+    shapes = [[], [40], [33, 41]] if q else [[]] + [[k] for k in PAYLOAD_KINDS] + [[33, 41], [47, 48]]
+    for s in (suites if q else range(9)):
+        for role in (0, 1):
+            for mode in range(5):
+                for sh in shapes:
+                    if q and mode >= 1 and sh == [33, 41] and s != 4:
+                        continue
+                    jobs.append(job(ROOT, "HTamperGenuine", [s, role, mode, -1] + sh + [0]))
+    return jobs
+
+
+def c06_jobs(tier):
+    q = tier == "quick"
+    jobs = []
+    for s in range(9):
+        for role in (0, 1):
+            shapes = [[], [PAYLOAD_KINDS[(2 * s + role) % 15]], [PAYLOAD_KINDS[(s + 7 * role + 3) % 15], PAYLOAD_KINDS[(5 * s + role + 1) % 15]]]
+            if not q:
+                shapes = [[]] + [[k] for k in PAYLOAD_KINDS] + [[33, 41], [47, 48], [40, 44, 45]]
+            for sh in shapes:
+                jobs.append(job(ROOT, "HSKLayout", [s, role, 0] + sh + [0]))
+                jobs.append(job(ROOT, "HAcceptReference", [s, role, (s + role) % 2, 0] + sh + [0]))
+    return jobs
+
+
+def c10_jobs(tier):
+    q = tier == "quick"
+    jobs = []
+    ns = list(range(0, 65)) if q else list(range(0, 130)) + [255, 256, 257, 1023, 1024, 1025, 4095, 4096]
+    for ki in range(3):
+        for n in ns:
+            if q and ki != n % 3 and n > 33:
+                continue
+            jobs.append(job(ENCR, "HEncryptStructure", [ki, n]))
+        for n in (0, 15, 16, 17):
+            for k in (1, 2, 3):
+                jobs.append(job(ENCR, "HRandFault", [ki, n, k]))
+        for l in range(0, 65):
+            jobs.append(job(ENCR, "HWrongKey", [ki, l]))
+        for n in range(0, (96 if q else 128) + 1):
+            jobs.append(job(ENCR, "HDecryptArbitrary", [ki, n]))
+    return jobs
+
+
 PROPS = {
+    "C06": dict(jobs=c06_jobs, claim="(a) RFC 7296 3.14 stated as a predicate over the real EncodeEncrypt output, using the same uninterpreted E/D/H: header fields, next payload 46, both length fields final, SK next = first inner payload, IV, positive whole number of blocks, textbook-CBC decryption under the sender-direction key gives chain || pad || pad length where the strict reference parser turns the chain into exactly the original payloads, ICV = truncated HMAC under the sender-direction integrity key over everything before it. (b) messages built by the independent implementation with every legal pad length (all p <= 255 compatible with the block size) and arbitrary pad octets and IV are accepted and decoded to the original payloads.",
+                bounds=lambda t: "9 suites x 2 directions; message shapes: empty, one and two payloads at generator tier 0" + ("" if t == "quick" else ", every payload kind alone"),
+                outside="larger messages", assumptions=CRYPTO_ASSUME,
+                trusted=["reference codec and reference protect in the harness (RFC layouts, DESIGN.md Appendix A)"]),
+    "C10": dict(jobs=c10_jobs, claim="For every key size and every plaintext length in the bound, for all key and plaintext octets and every outcome of the random source: size law, textbook CBC structure (plaintext || pad || pad length) under the reference block primitive, IV equal to a 16-octet string delivered by the random source during that very call (also for a second call on the same object), inverse, no state kept in the cipher object; an injected failure of the random source at either read gives an error and no ciphertext; every key length 0..64 other than the negotiated one is refused; Decrypt on every ciphertext length 0..96 with arbitrary content (all 256 recovered pad-length octets) returns a value of a consistent length or an error, never panics.",
+                bounds=lambda t: "plaintext lengths %s; ciphertext lengths 0..%d; key lengths 0..64; fault at read 1, 2, 3" % (("0..64", 96) if t == "quick" else ("0..129 and {255..257, 1023..1025, 4095, 4096}", 128)),
+                outside="other plaintext lengths up to 4096 (the code is length-generic: one more CBC block per 16 octets)", assumptions=CRYPTO_ASSUME),
+
+    "C02": dict(jobs=c02_jobs, claim="Structural obligations decided for every datagram of every length up to the bound, all keys, both roles: (O2) success through the SK branch implies that the last ICV octets equal the truncated HMAC under the sender-direction key over everything before them (hash, length and key direction from an independent table); (O3) at every cipher call that same formula is already implied by the path condition, i.e. ciphertext never reaches the cipher unauthenticated; (O4) otherwise no key is applied and the result equals plain Decode. On genuine messages: every single-octet edit at every position, every proper prefix, extensions, reflection and foreign keys are refused with an error under the ideal-MAC reading (a modified or misdirected message never carries a valid ICV), except an alteration of the first-payload type. Never crashing (O1) is shared with C04.",
+                bounds=lambda t: "arbitrary datagrams: single-SK-payload family up to %d octets, arbitrary chains up to %d octets; genuine messages of 0..2 payloads at the fixed minimal shape (thorough: every payload kind); %s suites, both roles, header nil/parsed" % ((96, 36, 3) if t == "quick" else (128, 38, 9)),
+                outside="unforgeability / collision resistance of HMAC itself (idealised, stated); longer datagrams; multi-octet edits other than truncation/extension are covered only through the arbitrary-datagram obligations O2-O4",
+                assumptions=CRYPTO_ASSUME + ["ideal MAC: datagrams considered carry an invalid ICV (vr.Assume(!valid)); acceptance of a modified message with a valid ICV is the <= 2^-96 collision event the property tolerates"],
+                trusted=["native confirmation of O2/O3 counterexamples uses a spying hash object in the SA's public interface fields to learn the checksum the code expects, writes it into the datagram and re-presents it with the real HMAC"]),
+
     "C05": dict(jobs=c05_jobs, claim="Both directions against an independently written RFC 7296 / RFC 3748 / RFC 4187 codec executed by the same engine: the strict reference parser accepts every library encoding and recovers exactly the encoded fields; the library decodes every datagram of the liberal reference encoder (symbolic reserved bits, critical flags, three transform orders) to the fields it was built from - for all field values of each shape. The reference's own round-trip lemma is discharged too.",
                 bounds=lambda t: "generator shapes of tier %s per payload kind, 15 (quick) / 225 (thorough) ordered pairs at minimal shape, transform orders {grouped, reversed, rotated}" % ("1" if t == "quick" else "2"),
                 outside="larger shapes; interleavings of more than 3 transforms beyond reverse/rotate",
